@@ -340,6 +340,8 @@ def snippet_text(key: str) -> str:
         return '{"type": "object"}'
     if key.endswith(".xml") or key.endswith(".xsd"):
         return '<xs:complexType name="dummy_t"><xs:sequence/></xs:complexType>'
+    if key.endswith(".py"):
+        return "# DUMMY SNIPPET for %s" % key
     return "// DUMMY SNIPPET for %s" % key
 
 
@@ -388,7 +390,7 @@ def count_files(d: pathlib.Path) -> int:
 
 
 # -- event log of one run: what the caller of main.execute can see, in order -----------------------------------
-_AUDIT: Dict[str, Any] = {"installed": False, "active": False, "root": "", "log": None}
+_AUDIT: Dict[str, Any] = {"installed": False, "active": False, "root": "", "log": None, "paths": None}
 
 
 def _audit(event: str, args: Any) -> None:
@@ -399,6 +401,8 @@ def _audit(event: str, args: Any) -> None:
         if isinstance(path, (str, os.PathLike)) and isinstance(mode, str) and any(c in mode for c in "wxa+"):
             if str(os.fspath(path)).startswith(_AUDIT["root"]):
                 _AUDIT["log"].append("w")
+                if _AUDIT["paths"] is not None:
+                    _AUDIT["paths"].append(str(os.fspath(path))[len(_AUDIT["root"]) :])
     except Exception:
         pass
 
@@ -467,7 +471,7 @@ def snippets_dir_for(scratch: pathlib.Path, snippets: Dict[str, str]) -> pathlib
     return d
 
 
-def generate_once(model_path: pathlib.Path, target: str, snippets: Dict[str, str], scratch: pathlib.Path, fresh: bool = False) -> Dict[str, Any]:
+def generate_once(model_path: pathlib.Path, target: str, snippets: Dict[str, str], scratch: pathlib.Path, fresh: bool = False, record_paths: bool = False) -> Dict[str, Any]:
     """One unwrapped main.execute run (the observation).  Output goes to scratch/out, which is *not* emptied
     between runs unless ``fresh`` (writes are observed through the audit hook, not by listing the directory)."""
     from aas_core_codegen import main as cg_main
@@ -482,7 +486,8 @@ def generate_once(model_path: pathlib.Path, target: str, snippets: Dict[str, str
     if not _AUDIT["installed"]:
         sys.addaudithook(_audit)
         _AUDIT["installed"] = True
-    _AUDIT.update(active=True, root=str(out_dir) + os.sep, log=log)
+    paths: Optional[List[str]] = [] if record_paths else None
+    _AUDIT.update(active=True, root=str(out_dir) + os.sep, log=log, paths=paths)
     try:
         rc = cg_main.execute(params, stdout=out, stderr=err)
         res = {"rc": rc, "stdout": out.getvalue(), "stderr": err.getvalue(), "exc": None}
@@ -490,7 +495,12 @@ def generate_once(model_path: pathlib.Path, target: str, snippets: Dict[str, str
         res = {"rc": None, "stdout": out.getvalue(), "stderr": err.getvalue(), "exc": exc_record(ex)}
     finally:
         _AUDIT["active"] = False
-    return project_run(target, res, sum(1 for k in log if k == "w"), log)
+        _AUDIT["paths"] = None
+    run = project_run(target, res, sum(1 for k in log if k == "w"), log)
+    if paths is not None:
+        run["paths"] = paths
+        run["out_dir"] = str(out_dir)
+    return run
 
 
 def smoke_once(model_path: pathlib.Path) -> Dict[str, Any]:
